@@ -370,6 +370,9 @@ def suite_reopen(tier, seed, mc_results=()):
         pre = gen_seq.random_driver(rng, "x", flavors, length=rng.randint(4, 30))
         cfg = pre["cfg"]
         cfg["compare"] = [[1, 2, "C11", False]]
+        # the arena may live at an offset into its file (page aligned or not): the file is judged from that offset on
+        # (a multiple of the largest alignment in the type menu: an offset that is not misaligns typed allocations, DESIGN section 12)
+        cfg["offset"] = [0, 0, 4096, 192][i % 4]
         cap = cfg["cap"]
         ops = [o for o in pre["ops"]]
         cycles = rng.randint(1, 3)
